@@ -567,4 +567,34 @@ example : blelloch (· + ·) 0 [[1, 2], [], [3], [4, 5], [6]] = some [[1, 3], []
 
 end scans
 
+/-! ## the kernel theorems, re-exported under this property (proved in `Lemmas/`) -/
+
+theorem K1_treeReduce_eq_fold {β γ : Type} (combine : List β → β) (aggregate : List β → γ)
+    (Hc : Hom combine combine) (Ha : Hom combine aggregate) (k depth : Nat) (hk : k ≠ 0) (xs : List β)
+    (hne : xs ≠ []) (hd : xs.length ≤ k ^ depth) :
+    treeReduce combine aggregate k depth xs = [aggregate xs] :=
+  treeReduce_eq_fold combine aggregate Hc Ha k depth hk xs hne hd
+
+theorem K1_gridReduce_eq_fold {β : Type} {op : β → β → β} {e : β} (hM : IsCommMonoid op e) (d : Nat)
+    (ks nb : List Nat) (vs : List β) (h : AxesOk (d + 1) ks nb)
+    (hl : vs.length = (cartesian (nb.map List.range)).length) :
+    gridReduce (fun xs => xs.foldr op e) (fun xs => xs.foldr op e) nb (ks.map some) false (d + 1) (mkGrid nb vs)
+      = some [([], vs.foldr op e)] :=
+  gridReduce_eq_fold hM d ks nb vs h hl
+
+theorem K2_seqScan_eq_scan {α : Type} (op : α → α → α) (e : α) (assoc : ∀ a b c, op (op a b) c = op a (op b c))
+    (idl : ∀ a, op e a = a) (blocks : List (List α)) :
+    (Dask.BlockScan.seqScan op e blocks).flatten = Dask.BlockScan.scanIncl op blocks.flatten :=
+  Dask.BlockScan.seqScan_eq_scan op e assoc idl blocks
+
+theorem K2_blelloch_prefix_eq_fold {α : Type} (op : α → α → α) (d : α)
+    (assoc : ∀ a b c, op (op a b) c = op a (op b c)) (batches : List α) :
+    ∃ pv, Dask.BlockScan.runSched op (Dask.BlockScan.schedule batches.length) batches = some pv ∧
+      pv.length = batches.length ∧
+      ∀ i, i < batches.length → pv[i]? = some (sfold op d (batches.take (i + 1))) :=
+  Dask.BlockScan.blelloch_sound op d assoc batches _ (by
+    have := Dask.BlockScan.schedOk_all batches.length
+    unfold Dask.BlockScan.schedOk at this
+    simpa using this)
+
 end Dask.C22
